@@ -89,6 +89,20 @@ CLAIMED = {
         technique="symbolic execution (CrossHair/z3) of real constructor vs range oracle, path-tree exhaustion",
         ref="3/C12",
     ),
+    "C17": dict(
+        text="Symbolic execution of the real parser / builder / reader on in-memory definitions: (a) the innermost-location "
+        "rule of Error.set_error_location_if_unknown for unbounded symbolic line numbers and every presence pattern; (b) "
+        "faulty statements whose VALUE is symbolic (constant beyond range, non-positive capacity, failing assertion, zero "
+        "divisor: every integer that makes the statement faulty) - the error must carry the path of the file containing "
+        "the statement and its 1-based line, in the target and in dependencies at depth 1 and 2; (c) choice-exhaustive: 35 "
+        "fault categories x surrounding lines of 8 kinds before/after x LF/CRLF x final newline; (d) @print delivered "
+        "exactly once per directive with its own path, line and text.",
+        note="Definitions are in-memory subclasses of the real DSDLDefinition (no file system); the print handler binding "
+        "under test is the real one in _namespace_reader. Faults without a statement (missing @sealed etc.) are checked "
+        "for path only. One known finding (print path in dependencies) is listed in known_findings.json.",
+        technique="symbolic execution (CrossHair/z3) of real parser/reader; symbolic fault values + choice-exhaustive layouts",
+        ref="3/C17",
+    ),
     "C19": dict(
         text="Symbolic execution of the real read_namespace/read_files on scratch namespaces in which the TEXT of every "
         "definition outside the dependency closure is an unconstrained symbolic str (any text, any length): the "
